@@ -418,6 +418,10 @@ func (r *regexp2Wrapper) findAllSubmatchIndexUTF16(s String, start, limit int, s
 				break
 			}
 			start = result.indexes[1]
+			if result.indexes[0] == start {
+				// after an empty match the next one is looked for at the next position
+				start++
+			}
 		}
 
 		results = append(results, result)
@@ -504,6 +508,14 @@ func (r *regexp2Wrapper) findAllSubmatchIndexUnicode(s unicodeString, start, lim
 				break
 			}
 			start = result.indexes[1]
+			if result.indexes[0] == start {
+				// after an empty match the next one is looked for at the next code point
+				if next := groups[0].RuneIndex + 1; next < len(posMap) {
+					start = posMap[next]
+				} else {
+					start++
+				}
+			}
 		}
 
 		results = append(results, result)
